@@ -3,6 +3,7 @@ package fam
 import (
 	"encoding/json"
 	"fmt"
+	"go/token"
 	"go/types"
 	"math/rand/v2"
 	"os"
@@ -79,7 +80,7 @@ func synthSource(pkg string, feats []string) (string, error) {
 	}
 	sort.Strings(names)
 	var b strings.Builder
-	fmt.Fprintf(&b, "package %s\n\n", pkg)
+	fmt.Fprintf(&b, "// A header comment: positions in it lie in this file like any other.\n\npackage %s\n\n", pkg)
 	if set["imports_chain"] {
 		b.WriteString("import \"example.com/u/h1\"\n\n")
 	}
@@ -90,6 +91,7 @@ func synthSource(pkg string, feats []string) (string, error) {
 		b.WriteString(featureSrc[f])
 		b.WriteString("\n")
 	}
+	b.WriteString("// A comment after the last declaration.\n")
 	return b.String(), nil
 }
 
@@ -255,8 +257,20 @@ func universeObserve(u *gengotypes.Universe, p gengotypes.Package) map[string]an
 			srcOK := true
 			for _, f := range p.Files() {
 				fn := p.FileSet().Position(f.Package).Filename
-				if got := u.LocateInPackage(f.Package); got != p {
-					locBad = append(locBad, fn)
+				// every position of the file counts: its first byte (a licence header, a build constraint), the package clause,
+				// every comment (package documentation, the comment after the last declaration), its last byte
+				probes := []token.Pos{f.FileStart, f.Package, f.End() - 1, f.FileEnd - 1}
+				for _, cg := range f.Comments {
+					probes = append(probes, cg.Pos())
+				}
+				for _, pos := range probes {
+					if !pos.IsValid() {
+						continue
+					}
+					if got := u.LocateInPackage(pos); got != p {
+						locBad = append(locBad, fn)
+						break
+					}
 				}
 				if filepath.Dir(fn) != p.SourceDir() {
 					srcOK = false
